@@ -73,7 +73,7 @@ FH_DEFAULT["UNSUPPORTED_CHECKSUM_TYPE"] = "ignore"
 IND_DEFAULT = dict(eofSent=True, eofRecv=True, segRecv=True, finished=True)
 
 DEFAULT_CFG = dict(
-    mode="ACK", closure=False, putMode="none", putClosure="none", segLen=4, maxPkt=512, crc=False,
+    id=0, mode="ACK", closure=False, putMode="none", putClosure="none", segLen=4, maxPkt=512, crc=False,
     chk="CRC32", ackInt=1000, ackLim=2, nakInt=1000, nakLim=2, chkInt=1000, chkLim=2, immNak=True,
     disp=False, sIdW=2, dIdW=2, sId=1, dId=2, seqW=2, seq0=0, indS=IND_DEFAULT, indD=IND_DEFAULT,
     fhS=FH_DEFAULT, fhD=FH_DEFAULT, file=[48, 49, 50, 51, 52, 53, 54, 55, 56, 57, 65, 66], mdOnly=False,
@@ -358,6 +358,7 @@ class World:
 
     def __init__(self, cfg: dict, seqprov: SeqProv | None = None, root: Path | None = None):
         self.cfg = cfg
+        self.pair = False   # pair runs: source-side events carry the destination sandbox snapshot too (C01)
         Clock.now = 1000
         self.own_root = root is None
         self.root = Path(tempfile.mkdtemp(prefix="cfdpv_", dir=os.environ.get("CFDP_VERIF_TMP", None))) if root is None else root
@@ -627,6 +628,10 @@ class World:
                      deferred=bool(h.deferred_lost_segment_procedure_active))
         return d
 
+    def env(self, call: str, **kw) -> None:
+        """An environment event (link fault, clock, entity-layer answer): skipped by the transducers, visible to monitors."""
+        self.ev.append(dict(side="E", call=call, now=Clock.now, **kw))
+
     def call(self, side: str, kind: str, arg=None, take: int | None = None, wrej: bool = False) -> dict:
         """One public API call + retrieval of `take` queued PDUs (None = all).  Returns the event; the
         retrieved concrete PDUs are in event['_pdus'] (not part of the JSON projection)."""
@@ -681,7 +686,7 @@ class World:
         ev = dict(side=side, call=kind, arg=argabs, now=Clock.now, take=-1 if take is None else take, wrej=wrej,
                   nwrites=fs.writes - w0, pre=pre, post=self.pub(side), ret=ret, exc=exc, excr=excr, excw=excw,
                   out=[self.absp(p) for p in pdus], ind=self.ind[side][n_ind:], flt=self.flt[side][n_flt:],
-                  fs=self.snapshot("D") if side == "D" else [], srcIntact=self.snapshot("S") == self.src_snapshot0)
+                  fs=self.snapshot("D") if (side == "D" or self.pair) else [], srcIntact=self.snapshot("S") == self.src_snapshot0)
         self.ev.append(ev)
         ev2 = dict(ev)
         ev2["_pdus"] = pdus
